@@ -125,29 +125,63 @@ def run(prog, rep, tier, repo):
         p = ('arg', 1, f.names.get(1))
         ops = partial_ops(f)
         want_arg = ('bin', 'Div', p, ('bin', 'Sub', ('const', 'f64', 1.0), p, 'f64'), 'f64')
-        good = False
+        # interval of p at the ln site from the dominating tests (range.contains, comparisons with literals, boolean flags that are
+        # only set to true under such tests): must be exactly [0, 1]
+        import struct
+
+        def facts_at(bb, depth=0):
+            out = []
+            for c, v in f.guards().get(bb, []):
+                out.append((c, v))
+                if tag(c) == 'local' and v is True and f.body.local_ty(c[1]) == 'bool' and depth < 3:
+                    sets = [st for st in f.stores() if st.target == c and not (tag(st.value) == 'const' and st.value[2] is False)]
+                    if len(sets) == 1:
+                        if tag(sets[0].value) == 'const' and sets[0].value[2] is True:
+                            out += facts_at(sets[0].bb, depth + 1)
+                        else:
+                            out.append((sets[0].value, True))
+                            out += facts_at(sets[0].bb, depth + 1)
+            return out
+        verdict = None
         detail = ''
-        if len(ops) == 1 and ops[0][1] == 'ln' and ops[0][2] == want_arg:
-            gs = f.guards().get(ops[0][0], [])
-            for c, v in gs:
+        lns = [o for o in ops if o[1] == 'ln']
+        if len(lns) == 1 and lns[0][2] == want_arg:
+            lo, hi = float('-inf'), float('inf')
+            for c, v in facts_at(lns[0][0]):
                 if v is True and tag(c) == 'call' and c[1] == 'std::ops::RangeInclusive::<Idx>::contains' and c[2][1] == p:
                     rng = c[2][0]
                     if tag(rng) == 'constx' and isinstance(rng[2], str) and rng[2].startswith('bytes:'):
-                        b = bytes.fromhex(rng[2][6:])
-                        import struct
-                        lo, hi = struct.unpack('<dd', b[:16])
-                        if (lo, hi) == (0.0, 1.0):
-                            good = True
+                        a_, b_ = struct.unpack('<dd', bytes.fromhex(rng[2][6:])[:16])
+                        lo, hi = max(lo, a_), min(hi, b_)
+                if tag(c) == 'bin' and c[1] in ('Lt', 'Le', 'Gt', 'Ge') and isinstance(v, bool) and p in (c[2], c[3]):
+                    other = c[3] if c[2] == p else c[2]
+                    if tag(other) == 'const' and isinstance(other[2], float):
+                        op = c[1] if c[2] == p else {'Lt': 'Gt', 'Le': 'Ge', 'Gt': 'Lt', 'Ge': 'Le'}[c[1]]     # p op const
+                        if not v:
+                            op = {'Lt': 'Ge', 'Le': 'Gt', 'Gt': 'Le', 'Ge': 'Lt'}[op]
+                        if op in ('Ge', 'Gt'):
+                            lo = max(lo, other[2])
                         else:
-                            detail = 'range is %r..=%r' % (lo, hi)
-            if not good and not detail:
-                detail = 'ln is not dominated by (0..=1).contains(p)'
-        else:
+                            hi = min(hi, other[2])
+            if (lo, hi) == (0.0, 1.0):
+                verdict = True
+            elif lo == float('-inf') and hi == float('inf'):
+                verdict = None
+                detail = 'no range test on p recognised before ln'
+            else:
+                verdict = False
+                detail = 'logit takes ln(p/(1-p)) for p in [%r, %r]; its domain is [0, 1]' % (lo, hi)
+        elif lns:
             detail = 'logit is not ln(p / (1 - p)): %s' % [(n, show(a)) for _, n, a, _ in ops]
-        if good:
-            rep.ok('guard-use', key, 'ln(p/(1-p)) is dominated by (0. ..=1.).contains(&p)')
+            verdict = None if not (len(lns) == 1) else False
         else:
+            detail = 'no ln found'
+        if verdict is True:
+            rep.ok('guard-use', key, 'ln(p/(1-p)) is reached only for p in [0, 1]')
+        elif verdict is False:
             rep.viol('guard-use', key, detail, site_of(f.body))
+        else:
+            rep.undecided('guard-use', key, detail, site_of(f.body), proof=False)
 
     # ------------------------------------------------------------------ D2 / D4 softmax
     eng = ElemEngine(prog)
